@@ -211,14 +211,16 @@ def generate(seed, tier):
             pos = rng.randrange(min(3, len(hist)) + 1)
             hist.insert(pos, [-1, {"chdir": "../other_store", "relib": 1 - libver}])
         optobjs = []
-        if rng.random() < 0.3:
+        if rng.random() < 0.45:
             # the host keeps one options dictionary, changes a key for the next target and passes
             # the very same object again; keys it never set are absent
-            optobjs = [rng.choice([{}, {"wasm": True}, {"optimize": True}, {"wasm": False}]) for _ in range(rng.randint(1, 2))]
+            optobjs = [rng.choice([{}, {"wasm": True}, {"wasm": True}, {"optimize": True}, {"wasm": False}])
+                       for _ in range(rng.randint(1, 2))]
             for j in range(len(hist)):
                 if hist[j][0] >= 0 and "debug-passes" not in hist[j][1] and rng.random() < 0.5:
                     kobj = rng.randrange(len(optobjs))
-                    change = rng.choice([{}, {}, {"wasm": True}, {"wasm": False}, {"optimize": True}, {"optimize": False}])
+                    change = rng.choice([{}, {"wasm": True}, {"wasm": False}, {"wasm": True}, {"wasm": False},
+                                         {"optimize": True}, {"optimize": False}])
                     hist[j] = [hist[j][0], {"$obj": kobj, "$set": change}]
         cache = rng.choice(["valid", "valid", "absent", "stale", "unwritable"])
         if rng.random() < 0.04:
@@ -241,6 +243,18 @@ def generate(seed, tier):
                                         {"LC_ALL": "C", "COLUMNS": "72"}, {"NO_COLOR": "1", "TERM": "xterm-256color"}]),
             }
         )
+    # what a reused options dictionary holds when it is passed is also compiled from a brand-new
+    # dictionary with exactly those keys, in another process
+    for pidx, pr_ in enumerate(list(procs)):
+        state = [dict(x) for x in pr_.get("optobjs", [])]
+        twins_ = []
+        for i, o in pr_["history"]:
+            if i >= 0 and "$obj" in o:
+                state[o["$obj"]].update(o.get("$set", {}))
+                twins_.append([i, {"$literal_fresh": dict(state[o["$obj"]])}])
+        for job in rng.sample(twins_, min(3, len(twins_))):
+            q = rng.choice([x for x in range(len(procs)) if x != pidx] or [pidx])
+            procs[q]["history"].insert(rng.randrange(len(procs[q]["history"]) + 1), job)
     # the members of a cluster meet in both orders: as written in one process, reversed in another
     for items in ordered:
         if len(procs) >= 2:
@@ -418,7 +432,9 @@ def _execute(sc, root, want_texts):
                 bump("probe_process_changed_directory" if "chdir" in o else "probe_libraries_rebuilt_mid_history")
                 prev = f"relib{ver}"
                 continue
-            if "$obj" in o:
+            if "$literal_fresh" in o:
+                o = dict(o["$literal_fresh"], **{"$literal": True})
+            elif "$obj" in o:
                 # what the host has put into that dictionary so far is what it asked for
                 objstate[o["$obj"]].update(o.get("$set", {}))
                 # the key is the literal content the host has put into that dictionary (keys it never
